@@ -139,6 +139,8 @@ class Check:
                 seen_rules.add(o.rule)
                 samples.append({"rule": o.rule, "instance": o.key, "config": o.config, "at": o.where, "verdict": "discharged" if o.ok else "VIOLATED", "what": o.msg})
         bodies = {c: len(f.bodies) for c, f in self._facts.items()}
+        if not explanation.strip():
+            explanation = f"Static analysis of property {self.pid} on the compiler's MIR/HIR of the current working tree: {total} rule instances decided (see per_rule and samples); nothing of the analysed crate is executed."
         cov = {
             "explanation": explanation,
             "evaluations": total,
